@@ -94,7 +94,7 @@ pub struct Scenario {
     pub sparse: bool,
     /// desync detection interval, 0 = off
     pub desync: u8,
-    /// 0 = PredictRepeatLast, 1 = PredictDefault
+    /// 0 = PredictRepeatLast, 1 = PredictDefault, 2 = a custom predictor x -> x | 1 (world::PredictOr1)
     pub predictor: u8,
     /// false: 1-byte input struct, true: 4-byte input struct
     pub wide: bool,
